@@ -290,7 +290,9 @@ func (w *World) verifyItem(it *Item, timeoutMs int) *FuncResult {
 				panic(r)
 			}
 		}()
-		if it.Kind == "lemma" {
+		if it.Kind == "census" {
+			e.verifyCensus(it)
+		} else if it.Kind == "lemma" {
 			e.verifyLemma(it)
 		} else if it.Kind == "pure" {
 			e.verifyPureWF(it)
@@ -475,6 +477,11 @@ func (e *Env) computeFrame(it *Item, entryCtx *SpecCtx) {
 	var visit func(x *SExpr)
 	visit = func(x *SExpr) {
 		switch x.Op {
+		case "call":
+			if x.Name == "trace" {
+				return
+			}
+			specFail("modifies %s", x)
 		case "paren":
 			visit(x.Args[0])
 		case "ident":
@@ -483,16 +490,10 @@ func (e *Env) computeFrame(it *Item, entryCtx *SpecCtx) {
 			}
 			specFail("modifies %s", x)
 		case "sel":
-			base := entryCtx.eval(x.Args[0])
-			p, ok := base.(*Ptr)
-			if !ok {
-				specFail("modifies %s: base is not a pointer", x)
+			fp := entryCtx.locOf(x)
+			if fp == nil {
+				specFail("modifies %s: not a location", x)
 			}
-			i, _ := fieldIndex(p.pointee(), x.Name)
-			if i < 0 {
-				specFail("modifies %s: no such field", x)
-			}
-			fp := &Ptr{Kind: p.Kind, Ref: p.Ref, Idx: p.Idx, Root: p.Root, Path: append(append([]int(nil), p.Path...), i)}
 			for _, l := range e.leavesOf(fp.pointee()) {
 				n, _ := e.locName(fp, l)
 				add(n, fp.Ref)
@@ -546,6 +547,20 @@ func (e *Env) computeFrame(it *Item, entryCtx *SpecCtx) {
 	e.frameAllowed = allowed
 	e.frameAllowAll = allowAll
 	e.frameOn = true
+	e.framePreserved = e.w.preservedTypes(it)
+	e.traceDeclared = map[string]bool{}
+	for _, em := range it.Emits {
+		e.traceDeclared[em.Ch] = true
+	}
+	for _, c := range it.Clauses {
+		if c.Kind == "modifies" {
+			for _, x := range c.Exprs {
+				if x.Op == "call" && x.Name == "trace" && len(x.Args) == 1 {
+					e.traceDeclared[x.Args[0].String()] = true
+				}
+			}
+		}
+	}
 }
 
 // frameGoals: for every heap array that differs from its entry version, the formula
@@ -555,9 +570,44 @@ func (e *Env) frameGoals(out *State) map[string]string {
 	if !e.frameOn {
 		return goals
 	}
+	if out.base != "" && out.base != "0" {
+		// the function called unknown code: only the types its own contract promises to
+		// preserve are checked; without such a clause the frame cannot hold
+		if len(e.framePreserved) == 0 {
+			goals["*unknown-code*"] = tFalse
+			return goals
+		}
+		for _, t := range e.framePreserved {
+			p := &Ptr{Kind: "obj", Root: t}
+			for _, l := range e.leavesOf(t) {
+				n, srt := e.locName(p, l)
+				cur := e.heapGet(out, n, srt)
+				init := q(n + "@0")
+				if cur == init || e.frameAllowAll[n] {
+					continue
+				}
+				r := "|$r|"
+				var excl []string
+				for _, a := range e.frameAllowed[n] {
+					excl = append(excl, mkNot(mkEq(r, a)))
+				}
+				goals[n] = fmt.Sprintf("(forall ((%s Int)) (=> %s (= (select %s %s) (select %s %s))))", r,
+					mkAnd(append([]string{sx("<", r, e.next0)}, excl...)...), cur, r, init, r)
+			}
+		}
+		return goals
+	}
 	for n, t := range out.heap {
 		init := q(n + "@0")
-		if t == init || e.frameAllowAll[n] || strings.HasPrefix(n, "T!") {
+		if t == init || e.frameAllowAll[n] {
+			continue
+		}
+		if strings.HasPrefix(n, "T!") {
+			// ghost trace channel: may only change if the contract declares it
+			ch := strings.SplitN(strings.TrimPrefix(n, "T!"), "!", 2)[0]
+			if !e.traceDeclared[ch] {
+				goals[n] = mkEq(t, init)
+			}
 			continue
 		}
 		r := "|$r|"
@@ -749,4 +799,99 @@ func (e *Env) verifyPureWF(it *Item) {
 		d1 := strings.NewReplacer(pairs...).Replace(rd.decrTerm)
 		e.oblige("wellfounded", fmt.Sprintf("call%d", k), c.guard, mkAnd(sx("<=", "0", d1), sx("<", d1, rd.decrTerm)))
 	}
+}
+
+// verifyCensus: a program-wide frame check by scanning the SSA of every function of the
+// module (test helper package internal/testutil excluded): the target function is called /
+// the target field is written only from the listed functions.
+func (e *Env) verifyCensus(it *Item) {
+	w := e.w
+	kind, target := it.Opts["census-kind"], it.Opts["census-target"]
+	allowed := map[string]bool{}
+	for _, f := range splitTop(it.Opts["census-within"], ',') {
+		allowed[strings.TrimSpace(f)] = true
+	}
+	var offenders []string
+	seen := 0
+	for fn := range w.allFuncs {
+		if !inRepo(fn) || len(fn.Blocks) == 0 {
+			continue
+		}
+		qn := funcQName(fn)
+		if strings.HasPrefix(qn, "internal/testutil.") {
+			continue
+		}
+		// closures count as their enclosing function
+		encl := fn
+		for encl.Parent() != nil {
+			encl = encl.Parent()
+		}
+		caller := funcQName(encl)
+		for _, b := range fn.Blocks {
+			for _, ins := range b.Instrs {
+				hit := false
+				switch kind {
+				case "calls":
+					var cc *ssa.CallCommon
+					switch x := ins.(type) {
+					case *ssa.Call:
+						cc = &x.Call
+					case *ssa.Defer:
+						cc = &x.Call
+					case *ssa.Go:
+						cc = &x.Call
+					}
+					if cc != nil {
+						if callee := cc.StaticCallee(); callee != nil {
+							c := callee
+							if o := callee.Origin(); o != nil {
+								c = o
+							}
+							if funcQName(c) == target || funcQName(callee) == target {
+								hit = true
+							}
+						}
+					}
+				case "writes":
+					if st, ok := ins.(*ssa.Store); ok {
+						if fa, ok := st.Addr.(*ssa.FieldAddr); ok {
+							pt, _ := fa.X.Type().Underlying().(*types.Pointer)
+							if pt != nil {
+								if nt, ok := pt.Elem().(*types.Named); ok && nt.Obj().Pkg() != nil {
+									stt := nt.Underlying().(*types.Struct)
+									p := strings.TrimPrefix(nt.Obj().Pkg().Path(), modPath+"/")
+									if nt.Obj().Pkg().Path() == modPath {
+										p = "hotstuff"
+									}
+									if p+"."+nt.Obj().Name()+"."+stt.Field(fa.Field).Name() == target {
+										hit = true
+									}
+								}
+							}
+						}
+					}
+				}
+				if hit {
+					seen++
+					if !allowed[caller] {
+						offenders = append(offenders, caller)
+					}
+				}
+			}
+		}
+	}
+	ob := &Obligation{Name: e.top, Func: e.top, Kind: "census", Property: e.prop, Expect: "unsat", Solver: "ssa-scan"}
+	sort.Strings(offenders)
+	if len(offenders) == 0 && seen > 0 {
+		ob.Verdict, ob.OK = "unsat", true
+		ob.Goal = fmt.Sprintf("%d site(s), all within the listed functions", seen)
+	} else if seen == 0 {
+		ob.Verdict, ob.OK = "unknown", false
+		ob.Note = "no site found: target renamed or census mistyped"
+	} else {
+		ob.Verdict, ob.OK = "sat", false
+		ob.Note = "sites outside the listed functions: " + strings.Join(dedupe(offenders), ", ")
+		ob.Model = ob.Note
+	}
+	e.obs = append(e.obs, ob)
 }
